@@ -578,7 +578,7 @@ def _verify_cases(con, registry, config, rep, fnode, clsname, qual):
                     # contract key and one parameter are unmatched -> same parameter; anything less clear is a
                     # contract that no longer fits the function (UNDECIDED), never a TypeError "found" in the code
                     fa = clo.node.args
-                    names = [p_.arg for p_ in fa.posonlyargs + fa.args + fa.kwonlyargs]
+                    names = [p_.arg for p_ in fa.posonlyargs + fa.args + fa.kwonlyargs] + ([fa.vararg.arg] if fa.vararg else [])
                     unk = [k_ for k_ in kw if k_ != '*args' and k_ not in names]
                     if unk and not fa.kwarg:
                         free = [n_ for n_ in names if n_ not in kw]
